@@ -857,6 +857,12 @@ func verifAssume(cond bool) {}
 //@   modifies nothing
 //@   ensures [C04,C16] @dialsasconfigured ncalls("DialTcp") == 1 && argof("DialTcp", 0) == ctx && argof("DialTcp", 1) == addr && argof("DialTcp", 2) == config
 //@   ensures [C04,C16] @handson result0 == resultof("DialTcp", 0) && result1 == resultof("DialTcp", 1)
+// UseWebsocket: the setter only (the factory it installs forwards to DialWebsocket, which has no contract).
+//@ func (*ClientBuilder).UseWebsocket :: (b, urlStr, requestHeader, tls) (result)
+//@   props C04
+//@   requires b != nil && b.config != nil && !sameobj(b.config, b)
+//@   modifies b.config.NewTransport
+//@   ensures [C04] @installs result == b && b.config.NewTransport != nil
 //@ func (*ClientBuilder).ChannelBufferSize :: (b, bufferSize) (result)
 //@   props C04
 //@   requires b != nil && b.config != nil && !sameobj(b.config, b)
